@@ -16,7 +16,10 @@ pub enum Supplier {
     Joule { el: Vec<u32> },
     /// heat pump: electricity + ambient heat = el x (cop - 1); low_scop marks the ambient line with
     /// CTEEPBD_EXCLUYE_SCOP_ACS (its ambient heat is then not counted as renewable)
-    HeatPump { el: Vec<u32>, cop_x10: u32, low_scop: bool },
+    /// `split_env = Some(p)`: the ambient heat is declared on two lines with the same tags, p/8 of it marked as
+    /// `low_scop` says and the rest marked the other way round (a machine that works part of the time below the
+    /// SCOP threshold): the mark belongs to a line, not to a system
+    HeatPump { el: Vec<u32>, cop_x10: u32, low_scop: bool, #[serde(default)] split_env: Option<u8> },
     Solar { q: Vec<u32> },
     Red { two: bool, q: Vec<u32> },
     Boiler { fuel: Car, input: Vec<u32>, eta_pct: u32 },
@@ -81,7 +84,7 @@ fn stepvals(n: usize, hi: u32) -> BoxedStrategy<Vec<u32>> {
 fn supplier(n: usize) -> BoxedStrategy<Supplier> {
     prop_oneof![
         2 => stepvals(n, 100_000).prop_map(|el| Supplier::Joule { el }),
-        3 => (stepvals(n, 100_000), 15u32..=60, prop::bool::weighted(0.2)).prop_map(|(el, cop_x10, low_scop)| Supplier::HeatPump { el, cop_x10, low_scop }),
+        3 => (stepvals(n, 100_000), 15u32..=60, prop::bool::weighted(0.2), proptest::option::weighted(0.25, 1u8..8)).prop_map(|(el, cop_x10, low_scop, split_env)| Supplier::HeatPump { el, cop_x10, low_scop, split_env }),
         2 => stepvals(n, 100_000).prop_map(|q| Supplier::Solar { q }),
         2 => (any::<bool>(), stepvals(n, 100_000)).prop_map(|(two, q)| Supplier::Red { two, q }),
         2 => (select(vec![Car::GASNATURAL, Car::GASOLEO, Car::GLP, Car::CARBON, Car::BIOCARBURANTE]), stepvals(n, 100_000), 60u32..=105).prop_map(|(fuel, input, eta_pct)| Supplier::Boiler { fuel, input, eta_pct }),
@@ -172,10 +175,19 @@ impl DhwCase {
             let id = i as i32 + 1;
             match s {
                 Supplier::Joule { el } => lines.push(mk(id, Kind::Used { srv: Srv::ACS, car: Car::ELECTRICIDAD }, cv(el), "")),
-                Supplier::HeatPump { el, cop_x10, low_scop } => {
+                Supplier::HeatPump { el, cop_x10, low_scop, split_env } => {
                     lines.push(mk(id, Kind::Used { srv: Srv::ACS, car: Car::ELECTRICIDAD }, cv(el), ""));
-                    let env: Vec<f32> = el.iter().map(|x| cents_f32(*x as i64 * (*cop_x10 as i64 - 10) / 10)).collect();
-                    lines.push(mk(id, Kind::Used { srv: Srv::ACS, car: Car::EAMBIENTE }, env, if *low_scop { "BdC CTEEPBD_EXCLUYE_SCOP_ACS" } else { "" }));
+                    let env_c: Vec<i64> = el.iter().map(|x| *x as i64 * (*cop_x10 as i64 - 10) / 10).collect();
+                    let marked = |m: bool, alt: bool| if m { "BdC CTEEPBD_EXCLUYE_SCOP_ACS" } else if alt { "BdC" } else { "" };
+                    match split_env {
+                        None => lines.push(mk(id, Kind::Used { srv: Srv::ACS, car: Car::EAMBIENTE }, env_c.iter().map(|c| cents_f32(*c)).collect(), marked(*low_scop, false))),
+                        Some(p) => {
+                            let a: Vec<i64> = env_c.iter().map(|c| c * *p as i64 / 8).collect();
+                            let b: Vec<i64> = env_c.iter().zip(a.iter()).map(|(c, a)| c - a).collect();
+                            lines.push(mk(id, Kind::Used { srv: Srv::ACS, car: Car::EAMBIENTE }, a.iter().map(|c| cents_f32(*c)).collect(), marked(*low_scop, p % 2 == 1)));
+                            lines.push(mk(id, Kind::Used { srv: Srv::ACS, car: Car::EAMBIENTE }, b.iter().map(|c| cents_f32(*c)).collect(), marked(!*low_scop, p % 2 == 1)));
+                        }
+                    }
                 }
                 Supplier::Solar { q } => lines.push(mk(id, Kind::Used { srv: Srv::ACS, car: Car::TERMOSOLAR }, cv(q), "")),
                 Supplier::Red { two, q } => lines.push(mk(id, Kind::Used { srv: Srv::ACS, car: if *two { Car::RED2 } else { Car::RED1 } }, cv(q), "")),
@@ -289,13 +301,23 @@ impl DhwCase {
         for (i, s) in self.suppliers.iter().enumerate() {
             match s {
                 Supplier::Joule { .. } => has_non_nearby = true,
-                Supplier::HeatPump { el, cop_x10, low_scop } => {
+                Supplier::HeatPump { el, cop_x10, low_scop, split_env } => {
                     has_non_nearby = true;
-                    let env: f64 = el.iter().map(|x| (*x as i64 * (*cop_x10 as i64 - 10) / 10) as f64).sum::<f64>() / 100.0;
-                    if !*low_scop {
-                        q_ren += env;
-                        nearby_non_bio_tot += env;
-                    }
+                    // the ambient heat on lines without the low-SCOP mark
+                    let env: f64 = el
+                        .iter()
+                        .map(|x| {
+                            let c = *x as i64 * (*cop_x10 as i64 - 10) / 10;
+                            let a = match split_env {
+                                None => c,
+                                Some(p) => c * *p as i64 / 8,
+                            };
+                            (if *low_scop { c - a } else { a }) as f64
+                        })
+                        .sum::<f64>()
+                        / 100.0;
+                    q_ren += env;
+                    nearby_non_bio_tot += env;
                 }
                 Supplier::Solar { q } => {
                     q_ren += c(q);
